@@ -22,6 +22,14 @@ PROPS = {
         "guards": ["accepted", "rejected-401", "rejected-403", "rejected-503", "kind-hmac", "kind-basic", "kind-forward"],
         "parts": [{"engine": "front", "test": "TestProp_C08_Auth", "quick": 2500, "thorough": 250000}],
     },
+    "C02": {
+        "rule": "store wiring tier: the store is built by the product's own newQueueStore from generated config text (backend memory / sqlite, queue / delivered / dlq retention ages "
+                "of 1 s against 1 h or off, dlq max_depth, queue_limits max_depth 4 with reject / drop_oldest) and runs on the wall clock: after 1.3 s a message is gone exactly "
+                "when the retention of ITS state is 1 s, the depth limit refuses or evicts as configured, an acked message is kept only under delivered retention",
+        "assumptions": ["store wiring tier: wall clock, 1.3 s per case"],
+        "guards": [],
+        "parts": [{"engine": "front", "test": "TestProp_C02_StoreWiring", "quick": 48, "thorough": 960, "shards": {"quick": 16, "thorough": 16}}],
+    },
     "C04": {
         "rule": "transport parity tier: one generated history of dequeue / ack / nack / extend calls (lease ttl, nack delay and extend_by from {0, 1, 400, 900, 999, 1000, 1001, "
                 "1500, 2500, 30000} ms, extend also negative; current, stale and unknown lease ids) and clock moves is run on two identical worlds, through the Pull "
@@ -133,7 +141,8 @@ PROPS = {
         "assumptions": [SAMPLED, "rate windows spanning a reload are not generated (excluded by the statement)"],
         "guards": ["202", "503", "413", "429", "evicted", "fanout-partial"],
         "parts": [{"engine": "front", "test": "TestProp_C12_Ingress", "quick": 2500, "thorough": 200000},
-                  {"engine": "front", "test": "TestProp_C12_RateLimit", "quick": 2500, "thorough": 200000}],
+                  {"engine": "front", "test": "TestProp_C12_RateLimit", "quick": 2500, "thorough": 200000},
+                  {"engine": "front", "test": "TestProp_C12_StoreWiring", "quick": 32, "thorough": 640, "shards": {"quick": 16, "thorough": 16}}],
     },
     "C15": {
         "rule": "one fixed route set (pull, single/multi-target deliver, publish off, publish.direct off, managed route, outbound) under generated "
@@ -181,7 +190,8 @@ PROPS = {
         "level": "fault_enumeration",
         "assumptions": ["SIGKILL keeps the OS page cache: power-loss durability is not decided", "interleavings of the concurrent clients are sampled by the OS scheduler"],
         "guards": ["acked-before-crash", "inflight-at-crash", "redelivery-checked"],
-        "parts": [{"engine": "front", "test": "TestProp_C01_ProcessCrash", "quick": 64, "thorough": 4000, "shards": {"quick": 8}, "needs_bins": ["hookaido"], "shrinktime": "60s"},
+        "parts": [{"engine": "front", "test": "TestProp_C01_StoreWiring", "quick": 32, "thorough": 640, "shards": {"quick": 16, "thorough": 16}},
+                  {"engine": "front", "test": "TestProp_C01_ProcessCrash", "quick": 64, "thorough": 4000, "shards": {"quick": 8}, "needs_bins": ["hookaido"], "shrinktime": "60s"},
                   {"engine": "front", "test": "TestProp_C01_FanoutFault", "quick": 2000, "thorough": 150000}],
     },
     "C03": {
